@@ -544,9 +544,10 @@ pub fn run(tier: Tier) -> i32 {
         exhaustive: true,
         extra: vec![],
     });
-    let mut ladder: Vec<u64> = vec![171, 256, 340, 341, 512, 1029, 1030, 1500, 2048, 4000];
+    // between the exhaustive bound and the 170!/171! table boundary, then beyond it
+    let mut ladder: Vec<u64> = vec![64, 80, 99, 100, 104, 120, 128, 150, 169, 170, 171, 256, 340, 341, 512, 1029, 1030, 1500, 2048, 4000];
     if tier.thorough() {
-        ladder.extend([170, 172, 1031, 6000, 10000, 20000, 40000]);
+        ladder.extend([172, 1031, 6000, 10000, 20000, 40000]);
     }
     let res = par_each(&ladder, |&n| coef_ladder(n));
     let mut ev = 0;
@@ -569,6 +570,95 @@ pub fn run(tier: Tier) -> i32 {
         ("reference", J::f(hyper_exact(1030, 515, 515, 257))),
     ]));
 
+    // call histories at large sizes: coefficients of size N1, then of size N2, on a *fresh* thread
+    // (tables or caches grown on demand may depend on the order in which sizes were first seen)
+    {
+        let sizes: [u64; 9] = [60, 150, 171, 200, 256, 341, 600, 1030, 2000];
+        let mut pairs: Vec<(u64, u64)> = Vec::new();
+        for a in sizes {
+            for b in sizes {
+                pairs.push((a, b));
+            }
+        }
+        let res = par_map(pairs.len(), |i| {
+            let (n1, n2) = pairs[i];
+            std::thread::spawn(move || {
+                let mut viols: Vec<Viol> = Vec::new();
+                let probe = |n: u64, viols: &mut Vec<Viol>, record: bool| {
+                    for big_k in [0, 1, n / 3, n / 2, n - 1, n] {
+                        for m in [1, 2, n / 2, n - 1, n] {
+                            for k in [0, 1, m / 2, m] {
+                                if record {
+                                    check_coef(n, big_k, m, k, viols);
+                                } else {
+                                    let _ = catch(|| hypergeometric_pmf(n, big_k, m, k));
+                                }
+                            }
+                        }
+                    }
+                };
+                probe(n1, &mut viols, false);
+                probe(n2, &mut viols, true);
+                viols
+                    .into_iter()
+                    .take(2)
+                    .map(|(k, w, j)| (format!("{k}|after-size-{}", if n1 < n2 { "smaller" } else if n1 > n2 { "larger" } else { "equal" }), format!("on a fresh thread, after coefficients of size {n1}: {w}"), j))
+                    .collect::<Vec<Viol>>()
+            })
+            .join()
+            .unwrap_or_default()
+        });
+        for v in res.into_iter().flatten() {
+            rep.violation(v.0, v.1, v.2);
+        }
+        // one projection whose later axis is larger than its earlier one, and the transpose
+        let mut ev2 = 0u64;
+        for (shape, to) in [(vec![174usize, 192], vec![4usize, 42]), (vec![192, 174], vec![42, 4]), (vec![31, 230], vec![31, 3])] {
+            ev2 += 1;
+            let x = RefArray::from_fn(&shape, |f, _| ((f * 13) % 17 + 1) as f64);
+            let got = std::thread::spawn({
+                let x = x.clone();
+                let to = to.clone();
+                move || project_real(&x, &to)
+            })
+            .join();
+            // reference by separability: project axis by axis with exact coefficients
+            let mut expect = RefArray::zeros(&to);
+            let (n0, n1) = (shape[0] - 1, shape[1] - 1);
+            let (m0, m1) = (to[0] - 1, to[1] - 1);
+            let h0: Vec<Vec<f64>> = (0..=n0).map(|k| (0..=m0).map(|kp| hyper_exact(n0 as u64, k as u64, m0 as u64, kp as u64)).collect()).collect();
+            let h1: Vec<Vec<f64>> = (0..=n1).map(|k| (0..=m1).map(|kp| hyper_exact(n1 as u64, k as u64, m1 as u64, kp as u64)).collect()).collect();
+            for k0 in 0..=n0 {
+                for k1 in 0..=n1 {
+                    let v = x.get(&[k0, k1]);
+                    for (p0, w0) in h0[k0].iter().enumerate() {
+                        if *w0 == 0.0 {
+                            continue;
+                        }
+                        for (p1, w1) in h1[k1].iter().enumerate() {
+                            expect.data[p0 * to[1] + p1] += v * w0 * w1;
+                        }
+                    }
+                }
+            }
+            match got {
+                Ok(Ok(Ok(g))) if g.shape == expect.shape && g.data.iter().zip(&expect.data).all(|(a, b)| (a - b).abs() <= 1e-8 * b.abs() + 1e-9) => {}
+                other => rep.violation(
+                    "C03|lib|large-two-axis-wrong",
+                    format!("project {shape:?} -> {to:?} on a fresh thread: {:?}; reference mass {}", other.map(|r| r.map(|r| r.map(|g| (g.sum(), g.data[..3].to_vec())))), expect.sum()),
+                    lib_case(&shape, &to, "large2"),
+                ),
+            }
+        }
+        rep.part(Part {
+            name: "lib: size histories on fresh threads".into(),
+            evaluations: pairs.len() as u64 + ev2,
+            nontrivial: pairs.len() as u64 + ev2,
+            note: format!("every ordered pair of sizes {sizes:?}: boundary coefficients of the first size, then of the second, on a newly spawned thread; three two-axis projections with axes of 173/191/229 chromosomes in both orders"),
+            exhaustive: true,
+            extra: vec![],
+        });
+    }
     // (ii)+(iii)
     let (md, ml) = tier.pick((3, 4), (3, 5));
     let mut shp = shapes(md, 1, ml, usize::MAX);
